@@ -30,6 +30,10 @@ CHECKS = {
          "runtime monitor of delegating generator call graphs vs the reference coroutine (full interleaved trace incl. argument evaluation and delegate-side effects), plus metamorphic twins with the delegation spelled out as a range loop",
          "Exploration: directed delegation cases (depth-3000 chain drained completely, recursion, partially consumed / twice-delegated iterators, for-post and switch positions, generic and method generators) + PRNG call graphs, each also as spelled-out twin; all tape paths and truncation histories.",
          E1NOTE),
+ "C06": ("E1 diff-trace",
+         "runtime monitor of consumer-side code in processed files (range / pull over iterators) vs Go's range-over-func on the reference coroutine; generator-side effects make over-pulling visible; build of the output checks complete type replacement",
+         "Exploration: directed + PRNG consumer functions (range := / = with break/continue/return, nested ranges, pull-range-pull on one iterator, iterators in struct fields, maps, slices, arrays, channels, closures, func slices, generic boxes, generic and method generators, helper functions) in 5 import styles; full-trace equality under every tape path; an unbuildable output counts as a violation.",
+         E1NOTE),
  "C07": ("E1 diff-trace + hook H1",
          "runtime differential monitor between the two real artefacts: unoptimised stage-1 package (snapshot by the verif hook inside the real Compile) vs optimised package, full interleaved traces; build of the final package",
          "Exploration: all E1 streams + optimiser-directed cases; stage-1 and final packages are both built and executed under every tape path and history; traces must be identical and the final package must build whenever stage-1 does; the evidence counts in how many programs the optimiser actually changed the text.",
@@ -38,6 +42,10 @@ CHECKS = {
          "runtime monitor of the real compile entry point (stand-alone binary: panic = rejection) and of `go build` of the generated package, over the supported-subset program streams x import styles",
          "Exploration: every supported-subset program of the streams in 5 import styles; a compiler panic or an unbuildable generated package is attributed to a single program by re-running it alone.",
          E1NOTE),
+ "C18": ("E1 diff-trace",
+         "runtime monitor of panic attribution: every consumer call is wrapped in its own recover and logs where and with which value a panic surfaced; compared with the reference coroutine (iter.Pull propagates the body's panic out of the resuming call)",
+         "Exploration: directed cases (panic between yields, in yield arguments, loop conditions, for-post, switch tags, delegates, closures called after a yield, two live iterators) + PRNG programs with tape-guarded explicit and run-time panics at random statement positions; full-trace equality up to and including the panicking call.",
+         E1NOTE + "Nothing is compared after the panicking call (the property does not specify it)."),
  "C13": ("E1 diff-trace (native source as reference)",
          "runtime differential monitor: the source package built natively vs the generated package on the same driver, result/effect traces; build of the generated package",
          "Exploration: directed bystander declarations (closure shapes func(ps){return f(ps)} over every kind of callee, constants, initialisers, methods) co-located with generators; the natively built source is the oracle.",
